@@ -38,7 +38,7 @@ ASSUMPTIONS = [
     "cache key injective (C09), restore exact (C06), atomic per-target steps",
 ]
 
-FAMILIES_QUICK = [("edits", 4), ("wipe", 7), ("lostblob", 6), ("dirs", 3), ("alias", 5), ("nocache", 5), ("tamper", 3), ("disabled", 3), ("taint", 2)]
+FAMILIES_QUICK = [("edits", 4), ("wipe", 6), ("lostblob", 6), ("dirs", 3), ("alias", 2), ("aliaswipe", 5), ("nocache", 5), ("tamper", 3), ("disabled", 3), ("taint", 2)]
 FAMILIES_THOROUGH = [(f, n * 15) for f, n in FAMILIES_QUICK]
 
 
